@@ -232,7 +232,7 @@ Section Assembly.
   (* --- every grader tree ------------------------------------------------------------------------- *)
   Hypothesis Hleaf : forall p, lout_ok S (o_leaf OR p).
   (* the one place where the code does NOT keep ok and grade in step (see C01_formula_leaf_refuted): a partial-credit
-     comparer verdict scaled by an answer worth grade_decimal = 0.  Either consolidate_results re-derives ok (the repaired
+     comparer verdict scaled by an answer worth grade_decimal = 0.  Either raw_check re-derives ok after scaling (the repaired
      code), or no alternative is worth 0 (Zc), or the comparers are crisp. *)
   Hypothesis Hside : o_recompute OR = true \/ (forall c, Zc c -> 0 < c) \/ (forall p, lout_crisp (o_leaf OR p)).
 
